@@ -98,9 +98,14 @@ VDRIVE_OP(incl)
 {
 	Alpha alpha;
 	if (c.contains("syms")) { alpha.RegisterAll(c["syms"]); }
-	TA b = MakeTA(c.at("B"), alpha);
+	// "bmode": "alias" = the SAME object is passed as both operands, "copy" = B is a copy of A sharing its storage
+	// (the case then carries B = A as value)
+	std::string bmode = c.value("bmode", "");
+	TA b0 = MakeTA(c.at("B"), alpha);
 	TA a;
-	BuildMaybeSplit(a, c, alpha, [&b](TA& x) { for (const Sel& sel : SELS) { runIncl(x, b, sel); runIncl(b, x, sel); } });
+	BuildMaybeSplit(a, c, alpha, [&b0](TA& x) { for (const Sel& sel : SELS) { runIncl(x, b0, sel); runIncl(b0, x, sel); } });
+	TA bc = (bmode == "copy") ? TA(a) : b0;
+	const TA& b = (bmode == "alias") ? a : bc;
 	json res;
 	json v = json::array();
 	for (const Sel& sel : SELS) { v.push_back(runIncl(a, b, sel)); }
@@ -118,7 +123,9 @@ VDRIVE_OP(union)
 	Alpha alpha;
 	if (c.contains("syms")) { alpha.RegisterAll(c["syms"]); }
 	TA a = MakeTA(c.at("A"), alpha);
-	TA b = MakeTA(c.at("B"), alpha);
+	std::string bmode = c.value("bmode", "");
+	TA bc = (bmode == "copy") ? TA(a) : MakeTA(c.at("B"), alpha);
+	const TA& b = (bmode == "alias") ? a : bc;
 	std::string maps = c.value("maps", "fresh");
 	AutBase::StateToStateMap ml, mr;
 	if (maps == "pre") { fillMap(ml, c.at("preL")); fillMap(mr, c.at("preR")); }
@@ -155,7 +162,9 @@ VDRIVE_OP(isect)
 	Alpha alpha;
 	if (c.contains("syms")) { alpha.RegisterAll(c["syms"]); }
 	TA a = MakeTA(c.at("A"), alpha);
-	TA b = MakeTA(c.at("B"), alpha);
+	std::string bmode = c.value("bmode", "");
+	TA bc = (bmode == "copy") ? TA(a) : MakeTA(c.at("B"), alpha);
+	const TA& b = (bmode == "alias") ? a : bc;
 	bool bu = c.value("bu", false);
 	std::string maps = c.value("maps", "fresh");
 	AutBase::ProductTranslMap pm;
